@@ -27,6 +27,7 @@ type Job struct {
 	Tag       string // free: used by the property post-processing
 	NoPanic   bool   // do not turn implicit-panic obligations into results
 	KeepPaths bool   // keep path conditions and observations (translator validation)
+	ProbeHang bool   // when the exploration is cut short inside a loop, look for an input on which the real code does not return (native watchdog)
 	BudgetS   int    // wall-clock budget of this job in seconds (0 = the check's budget)
 	Alias     bool   // solver-backed alias resolution of memory reads (multi-Step harnesses)
 }
@@ -54,6 +55,7 @@ type JobResult struct {
 	Obls        []OblResult
 	Queries     int
 	FeasQ       int
+	Hangs       []*ReplayFile // natively confirmed: the harness did not return within the watchdog
 	GlobalInit  map[string]bool
 	GlobalAtomW map[string]bool
 	GlobalAtomR map[string]bool
@@ -210,6 +212,7 @@ func (r *Runner) runJob(job Job, st *Store, sol *Solver) (jr JobResult) {
 	for k, v := range sol.Fallbacks {
 		fb0[k] = v
 	}
+	var hangPCs, lastPCs []*Term
 	work := [][]decision{nil}
 	for len(work) > 0 {
 		// shortest prefix first: when a budget cuts the exploration short, the
@@ -232,6 +235,9 @@ func (r *Runner) runJob(job Job, st *Store, sol *Solver) (jr JobResult) {
 			break
 		}
 		pr := e.RunPath(fn, r.argsFor(e, fn, job.Params), prefix)
+		if job.ProbeHang && len(e.pcs) > len(lastPCs) {
+			lastPCs = append([]*Term(nil), e.pcs...)
+		}
 		jr.Paths++
 		jr.Instrs += pr.Instrs
 		work = append(work, pr.Forks...)
@@ -247,6 +253,9 @@ func (r *Runner) runJob(job Job, st *Store, sol *Solver) (jr JobResult) {
 			jr.Bounded++
 		default:
 			jr.Undecided = append(jr.Undecided, pr.Reason)
+			if job.ProbeHang && len(e.pcs) > len(hangPCs) && (strings.Contains(pr.Reason, "budget") || strings.Contains(pr.Reason, "unwinding") || strings.Contains(pr.Reason, "bound exceeded")) {
+				hangPCs = append([]*Term(nil), e.pcs...)
+			}
 		}
 		if pr.UnknownBr > 0 {
 			jr.Undecided = append(jr.Undecided, fmt.Sprintf("%d branch feasibility queries unknown", pr.UnknownBr))
@@ -266,6 +275,14 @@ func (r *Runner) runJob(job Job, st *Store, sol *Solver) (jr JobResult) {
 			jr.PathData = append(jr.PathData, pr)
 		}
 		jr.Obls = append(jr.Obls, r.discharge(job, e, pr, pid)...)
+	}
+	if job.ProbeHang && len(jr.Undecided) > 0 {
+		if hangPCs == nil {
+			hangPCs = lastPCs // the exploration was cut between paths: probe from the deepest completed one
+		}
+		if hangPCs != nil {
+			r.probeHang(job, e, hangPCs, &jr)
+		}
 	}
 	jr.FeasQ = e.feasQ
 	jr.Queries = sol.Queries - q0
@@ -364,10 +381,25 @@ func (r *Runner) discharge(job Job, e *Exec, pr PathResult, pid string) []OblRes
 	}
 	_ = errs
 	// find the failing ones individually
+	sats := 0
 	for k, i := range pending {
 		j := idx[i]
+		// thousands of obligations of one path (a long loop) with some failing: the
+		// budget applies here too, and a few counterexamples per path are enough
+		if (!e.deadline.IsZero() && time.Now().After(e.deadline)) || sats >= 8 {
+			out[j].Verdict = "unknown"
+			if sats >= 8 {
+				out[j].Detail += " not examined: eight obligations of this path already have counterexamples"
+			} else {
+				out[j].Detail += " time budget exceeded"
+			}
+			continue
+		}
 		s2 := time.Now()
 		vi, _, err := e.sol.Check([]*Term{neg[k]}, nil)
+		if vi == Sat {
+			sats++
+		}
 		out[j].Ms = float64(time.Since(s2).Microseconds()) / 1000
 		switch vi {
 		case Unsat:
@@ -536,4 +568,115 @@ func sortedFuncs(rs []JobResult) []string {
 	}
 	sort.Strings(out)
 	return out
+}
+
+// probeHang: the exploration of this job was cut short (budget, unwinding or
+// path bound - typically a loop whose trip count depends on the input).  Try
+// the corner values (all zeros / all ones) of the narrow inputs the last branch
+// conditions depend on, keep those the path condition allows, and run the
+// harness natively on them under a watchdog: an input on which the real code
+// does not come back is a confirmed violation of termination.  Sound (only
+// native hangs are reported), not complete.
+func (r *Runner) probeHang(job Job, e *Exec, pcs []*Term, jr *JobResult) {
+	// the narrow inputs that occur in the most branch conditions of the path: the
+	// ones a loop test depends on recur in every iteration
+	count := map[*Term]int{}
+	for _, pc := range pcs {
+		for _, v := range collectVars(pc) {
+			if v.w > 0 && v.w <= 16 {
+				count[v]++
+			}
+		}
+	}
+	var vars []*Term
+	for v := range count {
+		vars = append(vars, v)
+	}
+	sort.Slice(vars, func(i, j int) bool {
+		if count[vars[i]] != count[vars[j]] {
+			return count[vars[i]] > count[vars[j]]
+		}
+		return vars[i].name < vars[j].name
+	})
+	if len(vars) > 4 {
+		vars = vars[:4]
+	}
+	dbg := os.Getenv("ZSYM_DEBUG_PROBE") != ""
+	if dbg {
+		fmt.Fprintf(os.Stderr, "probe %s: %d pcs, vars=%d\n", job.Label, len(pcs), len(vars))
+		for _, v := range vars {
+			fmt.Fprintf(os.Stderr, "  var %s w=%d count=%d\n", v.name, v.w, count[v])
+		}
+		v0, _, _ := e.sol.Check(pcs, nil)
+		fmt.Fprintf(os.Stderr, "  pcs alone: %v; last: %s\n", v0, pcs[len(pcs)-1].String())
+		as0 := &Assign{bv: map[string]uint64{}, arr: map[string]*arrVal{}}
+		for _, v := range vars {
+			as0.bv[v.name] = 0
+		}
+		func() {
+			defer func() { recover() }()
+			for i, pc := range pcs {
+				if r, ok := evalTerm(pc, as0, map[int]interface{}{}).(uint64); ok && r == 0 {
+					fmt.Fprintf(os.Stderr, "  pc %d false under zeros: %s\n", i, pc.String())
+					break
+				}
+			}
+		}()
+	}
+	if len(vars) == 0 {
+		return
+	}
+	tried := 0
+	// first under the whole path condition of the deepest path; then, because that
+	// path is only one of the branches the budget left unexplored, with the corner
+	// values alone (every other input at its default)
+	for round := 0; round < 2; round++ {
+		for mask := 0; mask < 1<<uint(len(vars)) && tried < 8; mask++ {
+			var as []*Term
+			if round == 0 {
+				as = append(as, pcs...)
+			}
+			for i, v := range vars {
+				c := uint64(0)
+				if mask>>uint(i)&1 == 1 {
+					c = 1<<uint(v.w) - 1
+				}
+				as = append(as, e.st.Eq(v, e.st.Const(v.w, c)))
+			}
+			if v, _, es := e.sol.Check(as, nil); v != Sat {
+				if dbg {
+					fmt.Fprintf(os.Stderr, "probe %s mask %d: %v %s\n", job.Label, mask, v, es)
+				}
+				continue
+			}
+			rf, err := extractModel(e, as)
+			if err != nil {
+				if dbg {
+					fmt.Fprintf(os.Stderr, "probe %s mask %d: model: %v\n", job.Label, mask, err)
+				}
+				continue
+			}
+			tried++
+			rf.Dir, rf.Harness, rf.Params = job.Dir, job.Harness, job.Params
+			rf.Failed = []string{"terminates"}
+			rf.Detail = "the harness did not return within the watchdog when run natively on this input (the symbolic exploration was cut short inside a loop)"
+			rf.Solver = e.sol.name
+			path, err := writeReplay(rf, "probe", job.Label+fmt.Sprintf("/terminates/%d.%d", round, mask))
+			if err != nil {
+				continue
+			}
+			r.L.wdMu.Lock()
+			r.L.watchdog = "10s"
+			res, _, _ := r.L.RunNative(job.Dir, []string{path}, false)
+			r.L.watchdog = ""
+			r.L.wdMu.Unlock()
+			if dbg {
+				fmt.Fprintf(os.Stderr, "probe %s mask %d: native %+v\n", job.Label, mask, res)
+			}
+			if len(res) == 1 && res[0].Hang {
+				jr.Hangs = append(jr.Hangs, rf)
+				return
+			}
+		}
+	}
 }
